@@ -48,6 +48,7 @@ func registerAll() {
 	ev.Register("C12", "entry", checkC12Entry)
 	ev.Register("C12", "arch", checkC12Arch)
 	ev.Register("C12", "processes", checkC12Processes)
+	ev.Register("C12", "cross-table", checkC12Cross)
 	ev.Register("C13", "history", checkC13History)
 	ev.Register("C13", "concurrent", checkC13Concurrent)
 	ev.Register("C13", "text", checkC13Text)
